@@ -31,6 +31,9 @@ type recSpec struct {
 	Parent    uint64 `json:"parent,omitempty"`
 	// Direct: the create carries the storage id itself (no raw id; the path of synced events)
 	Direct bool `json:"direct,omitempty"`
+	// FromCB (updates): ICUD.Update is given the record OBJECT that the Apply2 callback handed out when the
+	// named event was applied, instead of a record read with Records().Get
+	FromCB string `json:"from_cb,omitempty"`
 }
 
 // argSpec: the event is the command verif.MakeOrder with an ODoc argument and one nested ORecord
@@ -78,6 +81,7 @@ type scenario struct {
 type slotObs struct {
 	Key    string `json:"key"`
 	Kind   string `json:"kind,omitempty"`
+	Stale  bool   `json:"update_from_created_object,omitempty"`
 	New    bool   `json:"new"`
 	Load   bool   `json:"load,omitempty"`
 	Val    string `json:"val"` // "id/stamp sha" of the bytes the op tried to write
@@ -106,6 +110,10 @@ type liveEvent struct {
 	loaded bool // ... from the storage (not from the PLog cache of the instance that wrote it)
 	// updates of a loaded event whose stored record apply2 has already read (origin no longer empty)
 	updLoaded map[uint64]bool
+	// record objects the Apply2 callback handed out when this event was applied, by id
+	cbRecs map[uint64]istructs.IRecord
+	// updates of this event that were built from a record object of a created row (by id)
+	staleUpd map[uint64]bool
 }
 
 type item struct {
@@ -120,6 +128,8 @@ type item struct {
 	ev      *liveEvent // for record rows
 	id      uint64
 	kind    *kindDef // nil for log rows
+	stale   bool     // update built from a record object whose isNew flag is set
+	pofs    uint64   // log rows: the PLog offset of the event itself
 }
 
 type runner struct {
@@ -329,9 +339,9 @@ func (r *runner) step(o *op, kind string, corrupted bool, items []*item, call fu
 		if it.kind != nil {
 			kcode, kname = it.kind.Code, it.kind.Name
 		}
-		slots[i] = fmt.Sprintf("mkSlot (mkItem %s %s %d %s %s %s) %s %s", kit.Bytes(it.pk), kit.Bytes(it.cc), kcode,
-			kit.Bool(it.isNew), kit.Bool(it.load), v, r.obsTerm(it.before), r.obsTerm(after))
-		so.Slots = append(so.Slots, slotObs{Key: fmt.Sprintf("%x/%x", it.pk, it.cc), Kind: kname, New: it.isNew, Load: it.load, Val: vd,
+		slots[i] = fmt.Sprintf("mkSlot (mkItem %s %s %d %s %s %s %s) %s %s", kit.Bytes(it.pk), kit.Bytes(it.cc), kcode,
+			kit.Bool(it.isNew), kit.Bool(it.stale), kit.Bool(it.load), v, r.obsTerm(it.before), r.obsTerm(after))
+		so.Slots = append(so.Slots, slotObs{Key: fmt.Sprintf("%x/%x", it.pk, it.cc), Kind: kname, Stale: it.stale, New: it.isNew, Load: it.load, Val: vd,
 			Before: r.obsDesc(it.before), After: r.obsDesc(after)})
 		r.tagSlot(kind, corrupted, it, it.before, after, res)
 	}
@@ -378,6 +388,16 @@ func (r *runner) tagSlot(kind string, corrupted bool, it *item, before, after ob
 	if it.kind != nil {
 		op += ":" + it.kind.Name
 	}
+	if kind == "KWlog" {
+		op += fmt.Sprintf(":p%d", it.pofs)
+	}
+	if kind == "KApply" && !it.isNew && it.stale {
+		op = "update-from-created-object"
+		if before.topOk && res == "RViolation" {
+			// finding F-A, judged from the observed outcome
+			r.tags["F-A:update-built-from-created-record-object-refused"] = true
+		}
+	}
 	r.tags[fmt.Sprintf("%s:t%d:%s:%s:%s", pre, r.sc.Trust, op, state, r.sc.Backend)] = true
 	r.tags["result:"+res] = true
 	if before.topOk && res == "RViolation" && bytes.Equal(before.top, after.top) {
@@ -412,6 +432,7 @@ func (r *runner) eventItems(ev *liveEvent) ([]*item, error) {
 		pk, cc := recordKey(sp.WS, id)
 		ws := sp.WS
 		items = append(items, &item{pk: pk, cc: cc, isNew: isNew, load: !isNew && ev.loaded && !ev.updLoaded[id], stamp: rs.Stamp, ev: ev, id: id,
+			stale: !isNew && !ev.loaded && ev.staleUpd[id],
 			kind: kindOf(rs.Kind), api: func() (bool, int64, error) { return r.rig.apiRecord(ws, id) }})
 		return nil
 	}
@@ -436,7 +457,7 @@ func (r *runner) plogItem(sp *evSpec) *item {
 
 func (r *runner) wlogItem(sp *evSpec) *item {
 	pk, cc := wlogKey(sp.WS, sp.WOfs)
-	return &item{pk: pk, cc: cc, isNew: true, stamp: sp.Stamp,
+	return &item{pk: pk, cc: cc, isNew: true, stamp: sp.Stamp, pofs: sp.POfs,
 		api: func() (bool, int64, error) { return r.rig.apiWLog(sp.WS, sp.WOfs) }}
 }
 
@@ -472,6 +493,7 @@ func (r *runner) build(o *op) error {
 		lb.PutRecordID(appdef.SystemField_ID, argRawID+1)
 		lb.PutInt64(fldStamp, sp.Arg.Stamp)
 	}
+	stale := map[uint64]bool{}
 	if !sp.Corrupted {
 		cud := bld.CUDBuilder()
 		for i, c := range sp.Creates {
@@ -506,8 +528,20 @@ func (r *runner) build(o *op) error {
 			if err != nil {
 				return err
 			}
-			rec, err := app.Records().Get(istructs.WSID(sp.WS), true, istructs.RecordID(id))
-			if err != nil {
+			var rec istructs.IRecord
+			if u.FromCB != "" {
+				src := r.events[u.FromCB]
+				if src == nil || src.cbRecs[id] == nil {
+					r.events[o.Name] = &liveEvent{spec: sp, unbuilt: fmt.Sprintf("no record object %d from the callback of %s", id, u.FromCB)}
+					return r.skip(o, r.events[o.Name].unbuilt)
+				}
+				rec = src.cbRecs[id]
+				for _, c := range src.spec.Creates {
+					if cid, _ := r.recID(c); cid == id {
+						stale[id] = true
+					}
+				}
+			} else if rec, err = app.Records().Get(istructs.WSID(sp.WS), true, istructs.RecordID(id)); err != nil {
 				return err
 			}
 			if rec.QName() == appdef.NullQName {
@@ -530,7 +564,7 @@ func (r *runner) build(o *op) error {
 	if sp.Invalid && berr == nil {
 		return fmt.Errorf("build %s: the invalid event was built without an error", o.Name)
 	}
-	r.events[o.Name] = &liveEvent{spec: sp, raw: raw, berr: berr}
+	r.events[o.Name] = &liveEvent{spec: sp, raw: raw, berr: berr, staleUpd: stale}
 	return nil
 }
 
@@ -593,6 +627,26 @@ func (r *runner) runOp(o *op) error {
 			}
 			return err
 		})
+	case "buildplog":
+		// IEvents.BuildPLogEvent: a PLog event that is not put into the PLog (sys.Corrupted with null PLog offset
+		// only; the path of `update corrupted` for the WLog)
+		ev, err := r.get(o.Name)
+		if err != nil {
+			return err
+		}
+		if ev.raw == nil {
+			return r.skip(o, "event was not built")
+		}
+		var pnc any
+		func() {
+			defer func() { pnc = recover() }()
+			ev.pev = r.rig.app.Events().BuildPLogEvent(ev.raw)
+		}()
+		if pnc != nil {
+			return r.skip(o, fmt.Sprintf("BuildPLogEvent panics: %v", pnc))
+		}
+		ev.putGen = r.rig.gen
+		return nil
 	case "wlog":
 		ev, err := r.get(o.Name)
 		if err != nil {
@@ -614,7 +668,14 @@ func (r *runner) runOp(o *op) error {
 		if err != nil {
 			return err
 		}
-		return r.step(o, "KApply", false, items, func() error { return r.rig.app.Records().Apply(ev.pev) })
+		return r.step(o, "KApply", false, items, func() error {
+			got := map[uint64]istructs.IRecord{}
+			err := r.rig.app.Records().Apply2(ev.pev, func(rec istructs.IRecord) { got[uint64(rec.ID())] = rec })
+			if err == nil {
+				ev.cbRecs = got
+			}
+			return err
+		})
 	case "reread":
 		src, err := r.get(o.Name)
 		if err != nil {
@@ -641,12 +702,16 @@ func (r *runner) runOp(o *op) error {
 		}
 		// served from the PLog cache exactly when this instance stored an event at the offset
 		loaded := true
+		var stale map[uint64]bool
 		for _, e := range r.events {
 			if e.pev != nil && !e.reread && e.putGen == r.rig.gen && e.spec.Part == src.spec.Part && e.spec.POfs == src.spec.POfs {
 				loaded = false
+				if e.pev == got {
+					stale = e.staleUpd // the very object that was built: its updates keep the flags they were built with
+				}
 			}
 		}
-		r.events[o.As] = &liveEvent{spec: spec, pev: got, reread: true, loaded: loaded, putGen: -1, updLoaded: map[uint64]bool{}}
+		r.events[o.As] = &liveEvent{spec: spec, pev: got, reread: true, loaded: loaded, putGen: -1, updLoaded: map[uint64]bool{}, staleUpd: stale}
 		return nil
 	case "reapply_recs":
 		ev, err := r.get(o.Name)
